@@ -557,6 +557,11 @@ func callSSA(i *interpreter, caller *frame, callpos token.Pos, fn *ssa.Function,
 	if i.funcsSeen != nil {
 		i.funcsSeen[fn]++
 	}
+	if i.lockMon != nil && i.lockMon.watchedMu != nil {
+		if onExit := i.lockMon.lockEnter(fn); onExit != nil {
+			defer onExit()
+		}
+	}
 
 	// generic function body?
 	if fn.TypeParams().Len() > 0 && len(fn.TypeArgs()) == 0 {
